@@ -264,6 +264,8 @@ class OpsMixin:
             items = self.iterate(it, g.iter, fr)
             if items is None:
                 return False
+            if isinstance(items, TruncList):
+                self._comp_endless = True
             for x in items:
                 self.assign_comp(g.target, x, fr)
                 if all(self.truth(self.eval(c, fr), c, fr) for c in g.ifs):
@@ -276,6 +278,7 @@ class OpsMixin:
         if frame.cls_ns is not None:
             # class-body comprehension: sees module names only (python rule)
             pass
+        self._comp_endless = False
         return rec(0, cf), cf
 
     def assign_comp(self, t, v, fr):
@@ -310,7 +313,9 @@ class OpsMixin:
     def ex_GeneratorExp(self, e, frame):
         v = self.ex_ListComp(e, frame)
         if isinstance(v, list):
-            return GenVal(v)
+            g = GenVal(v)
+            g.truncated = getattr(self, "_comp_endless", False)
+            return g
         return v
 
     def ex_SetComp(self, e, frame):
@@ -368,6 +373,11 @@ class OpsMixin:
     def call(self, fn, args, kwargs, node, frame):
         if isinstance(fn, FuncVal):
             return self.call_function(fn, args, kwargs, node, frame)
+        if isinstance(fn, (External, PartialVal)):
+            from .stdlib_model import _NO
+            r = self.stdlib_call(fn, args, kwargs, node, frame)
+            if r is not _NO:
+                return r
         if isinstance(fn, BoundMethod):
             return self.call(fn.func, [fn.self_val] + list(args), kwargs, node, frame)
         if isinstance(fn, Builtin):
@@ -630,6 +640,11 @@ class OpsMixin:
             r = self.contains(b, a, node, frame)
             return r if isinstance(op, ast.In) else not r
         o = CMPOPS[type(op)]
+        if o in ("==", "!=") and isinstance(a, Instance) and isinstance(a.cls, ClassVal):
+            eqf, eowner = a.cls.lookup("__eq__")
+            if isinstance(eqf, FuncVal):          # the class says what equality means
+                r = self.truth(self.call_function(eqf, [a, b], {}, node, frame), node, frame)
+                return r if o == "==" else not r
         if isinstance(a, Unknown) or isinstance(b, Unknown):
             # a comparison with a value the analysis lost: both outcomes are explored, unrelated to any other decision about
             # the same quantity -- conclusions that need such decisions to agree are not reliable on this path
@@ -674,7 +689,7 @@ class OpsMixin:
                 raise PyRaise(ExtExc("BytesWarning", ("BytesWarning", "Warning", "Exception", "BaseException")), node, frame.where(node))
             return o == "!="
         # two tuples / two lists: equal iff same length and pairwise equal (python compares element by element, in order)
-        if o in ("==", "!=") and type(a) is type(b) and type(a) in (tuple, list):
+        if o in ("==", "!=") and ((isinstance(a, tuple) and isinstance(b, tuple)) or (type(a) is list and type(b) is list)):
             eq = len(a) == len(b)
             if eq:
                 for x, y in zip(a, b):
@@ -831,7 +846,7 @@ class OpsMixin:
         return 0, None
 
     def is_static(self, v):
-        if v is None or isinstance(v, (bool, int, float, str, bytes, range)):
+        if v is None or isinstance(v, (bool, int, float, str, bytes, range, EnumMember)):
             return True
         if isinstance(v, (tuple, list, set, frozenset)):
             return all(self.is_static(x) for x in v)
@@ -863,6 +878,21 @@ class OpsMixin:
 
     def contains(self, container, item, node, frame):
         item = norm_int(item)
+        if isinstance(container, ClassVal) and self.enum_class_of(container) is not None:
+            en = self.enum_class_of(container)
+            if isinstance(item, (IntEnumMember, EnumMember)):
+                return item.ecls is en or en in item.ecls.mro()
+            if self.is_static(item):            # python 3.12: a value is `in` the enum when a member has it
+                return any((int(m) if isinstance(m, IntEnumMember) else m.evalue) == item for m in en.enum_unique)
+            raise AnalysisError("unmodelled-stdlib", "<dynamic value> in %s at %s" % (container.name, frame.where(node)))
+        if isinstance(container, DictView):
+            if container.kind == "keys":
+                container = container.d
+            else:
+                items = container.items()
+                if isinstance(item, (ClassVal, FuncVal, Instance, EnumVal, EnumMember, ModuleVal)) or item is None:
+                    return any(x is item for x in items)          # objects that compare by identity
+                container = items
         if isinstance(container, dict):
             if self.is_static(item):
                 try:
@@ -1022,6 +1052,10 @@ class OpsMixin:
         v = norm_int(v)
         if v is None:
             return "NoneType"
+        if isinstance(v, NTuple):
+            return v.ntcls.name
+        if isinstance(v, (IntEnumMember, EnumMember)):
+            return v.ecls.name
         if isinstance(v, bool):
             return "bool"
         if isinstance(v, (int, Sym)):
@@ -1185,8 +1219,15 @@ class OpsMixin:
     # ------------------------------------------------------------------
     def iterate(self, v, node, frame):
         """static list of items or None if dynamic"""
+        if isinstance(v, TruncList):
+            return v
         if isinstance(v, (list, tuple, range, str, bytes)):
             return list(v)
+        if isinstance(v, CountVal):
+            from .stdlib_model import COUNT_ITEMS
+            return TruncList(v.start + i * v.step for i in range(COUNT_ITEMS))
+        if isinstance(v, ClassVal) and self.enum_class_of(v) is not None:
+            return list(self.enum_class_of(v).enum_unique)
         if isinstance(v, (set, frozenset)):
             # a set has no defined iteration order (for strings it changes from run to run): the analysis fixes one, and
             # checks that care evaluate under the opposite one as well (self.set_order_reversed)
@@ -1199,7 +1240,7 @@ class OpsMixin:
         if isinstance(v, GenVal):
             rest = v.items[v.pos:]
             self.gen_advance(v, len(v.items), node, frame)
-            return rest
+            return TruncList(rest) if getattr(v, "truncated", False) else rest
         if isinstance(v, Buf) and v.cells is not None:
             return list(v.cells)
         if isinstance(v, View) and v.length is not None:
@@ -1238,6 +1279,8 @@ class OpsMixin:
     def len_of(self, v, node, frame):
         if isinstance(v, (str, bytes, list, tuple, dict, set, frozenset, range)):
             return len(v)
+        if isinstance(v, ClassVal) and self.enum_class_of(v) is not None:
+            return len(self.enum_class_of(v).enum_unique)
         if isinstance(v, Buf):
             return v.length
         if isinstance(v, View):
